@@ -42,7 +42,7 @@ import (
 
 type Call struct {
 	At   int    `json:"at"`
-	Kind string `json:"kind"` // run | runif | cancel | cancelif | ctx | dup | exists
+	Kind string `json:"kind"` // run | runif | cancel | cancelif | ctx | dup | exists | resched (CancelJob, then ScheduleJob of the name, back to back)
 }
 
 type Script struct {
@@ -81,6 +81,7 @@ type Obs struct {
 	Panic     bool     `json:"panic"`
 	Hung      bool     `json:"hung"`
 	Running   int      `json:"running"` // executions of jobFunc in progress when the script ended
+	Dup       string   `json:"dup"`     // "None": no second ScheduleJob of the name was accepted; "Some true|false": JobExists(name) at the end of the script, while that second job is pending
 	Count     int      `json:"count"`
 }
 
@@ -113,6 +114,8 @@ type shared struct {
 	reuse     string
 	reuseRuns int
 	running   int
+	dupOK     atomic.Bool // a second ScheduleJob of the name was accepted
+	dup       string
 	panicked  bool
 	finished  bool
 	svc       *advanced.Service
@@ -128,6 +131,19 @@ func listed(svc *advanced.Service, name string) bool {
 		}
 	}
 	return false
+}
+
+// expand: the calls as the Coq script sees them (a resched is a CancelJob and a ScheduleJob at one instant).
+func expand(calls []Call) []Call {
+	var out []Call
+	for _, c := range calls {
+		if c.Kind == "resched" {
+			out = append(out, Call{At: c.At, Kind: "cancel"}, Call{At: c.At, Kind: "dup"})
+		} else {
+			out = append(out, c)
+		}
+	}
+	return out
 }
 
 // body runs inside the bubble.
@@ -187,12 +203,34 @@ func body(sc Script, st *shared) {
 	}
 	dupCtx, dupCancel := context.WithCancel(rootCtx)
 	defer dupCancel()
-	for i, c := range sc.Calls {
+	dupJob := func() error {
+		// far in the future, own context, own function: never runs; removed after the script
+		err := svc.ScheduleJob(dupCtx, "c02", jobName, t0.Add(time.Hour), func(context.Context) {})
+		if err == nil {
+			st.dupOK.Store(true)
+		}
+		return err
+	}
+	base := 0
+	for _, c := range sc.Calls {
+		i := base
+		base++
+		if c.Kind == "resched" {
+			base++
+		}
 		go func() {
 			time.Sleep(ms(c.At))
 			st.tick()
 			var res string
 			switch c.Kind {
+			case "resched":
+				r1 := codeOf(svc.CancelJob(rootCtx, jobName))
+				r2 := codeOf(dupJob())
+				st.mu.Lock()
+				st.calls[i], st.calls[i+1] = r1, r2
+				st.mu.Unlock()
+				st.tick()
+				return
 			case "run":
 				res = codeOf(svc.RunJob(rootCtx, jobName))
 			case "runif":
@@ -207,8 +245,7 @@ func body(sc Script, st *shared) {
 				jobCancel()
 				res = "Ret Nil"
 			case "dup":
-				// far in the future, own context, own function: never runs; removed after the script
-				res = codeOf(svc.ScheduleJob(dupCtx, "c02", jobName, t0.Add(time.Hour), func(context.Context) {}))
+				res = codeOf(dupJob())
 			case "exists":
 				res = fmt.Sprintf("RetB %v", svc.JobExists(rootCtx, jobName))
 			default:
@@ -223,7 +260,12 @@ func body(sc Script, st *shared) {
 	time.Sleep(ms(sc.End))
 	synctest.Wait()
 	st.tick()
-	// a re-scheduling call that was accepted: remove that job again (its own context)
+	// a re-scheduling call that was accepted: that job is pending and must hold the name; then it is
+	// removed again (its own context)
+	dup := "None"
+	if st.dupOK.Load() {
+		dup = fmt.Sprintf("Some %v", svc.JobExists(rootCtx, jobName))
+	}
 	dupCancel()
 	synctest.Wait()
 	st.tick()
@@ -244,6 +286,7 @@ func body(sc Script, st *shared) {
 	st.starts = st.starts[:nstarts] // what the original job did after the observation instant is not part of it
 	st.exists, st.listed, st.reuse, st.reuseRuns = exists, isListed, codeOf(rerr), int(reuseRuns.Load())
 	st.running = running
+	st.dup = dup
 	st.finished = true
 	st.mu.Unlock()
 	st.tick()
@@ -290,7 +333,7 @@ var watchdogStep = 40 * time.Millisecond
 // and two process-wide goroutine dumps in a row show nothing able to run (or, failing that, after
 // 10 s of real time without an event).
 func runOnce(t *testing.T, sc Script) Obs {
-	st := &shared{calls: make([]string, len(sc.Calls))}
+	st := &shared{calls: make([]string, len(expand(sc.Calls))), dup: "None"}
 	for i := range st.calls {
 		st.calls[i] = "Hung"
 	}
@@ -344,10 +387,11 @@ wait:
 	st.mu.Lock()
 	defer st.mu.Unlock()
 	o := Obs{Calls: append([]string(nil), st.calls...), Starts: append([]int{}, st.starts...), Overlap: st.overlap,
-		Exists: st.exists, Listed: st.listed, Reuse: st.reuse, ReuseRuns: st.reuseRuns, Panic: st.panicked, Running: st.running}
+		Exists: st.exists, Listed: st.listed, Reuse: st.reuse, ReuseRuns: st.reuseRuns, Panic: st.panicked, Running: st.running, Dup: st.dup}
 	if hung || !st.finished {
 		o.Hung = true
 		o.Running = st.inflight
+		o.Dup = "None"
 		o.Reuse, o.ReuseRuns = "Ret Nil", 0
 		if st.svc != nil {
 			// the table can still be read from outside the bubble (jobsMutex only)
@@ -356,6 +400,9 @@ wait:
 			select {
 			case r := <-res:
 				o.Exists, o.Listed = r[0], r[1]
+				if st.dupOK.Load() {
+					o.Dup = fmt.Sprintf("Some %v", r[0])
+				}
 			case <-time.After(2 * time.Second):
 			}
 		}
@@ -382,7 +429,7 @@ func kindTerm(k string) string {
 
 func scriptTerm(sc Script) string {
 	calls := make([]string, 0, len(sc.Calls))
-	for _, c := range sc.Calls {
+	for _, c := range expand(sc.Calls) {
 		calls = append(calls, Record("cl_at", N(uint64(c.At)), "cl_kind", kindTerm(c.Kind)))
 	}
 	kind := "OneOff"
@@ -411,7 +458,7 @@ func obsKey(o Obs) string {
 	}
 	out := Record("o_calls", List(calls), "o_starts", List(starts), "o_overlap", N(uint64(o.Overlap)),
 		"o_exists", Bool(o.Exists), "o_reuse", reuse, "o_reuse_runs", N(uint64(o.ReuseRuns)), "o_panic", Bool(o.Panic))
-	return "ob_out := " + out + "; ob_listed := " + Bool(o.Listed) + "; ob_hung := " + Bool(o.Hung) + "; ob_running := " + N(uint64(o.Running))
+	return "ob_out := " + out + "; ob_listed := " + Bool(o.Listed) + "; ob_hung := " + Bool(o.Hung) + "; ob_running := " + N(uint64(o.Running)) + "; ob_dup := " + map[string]string{"None": "None", "Some true": "(Some true)", "Some false": "(Some false)"}[o.Dup]
 }
 
 func obsTerm(o Obs) string {
@@ -422,7 +469,7 @@ func obsTerm(o Obs) string {
 // well-formedness of a script (applied to generated, corpus and replay inputs alike)
 
 func removes(k string) bool {
-	return k == "run" || k == "runif" || k == "cancel" || k == "cancelif" || k == "ctx"
+	return k == "run" || k == "runif" || k == "cancel" || k == "cancelif" || k == "ctx" || k == "resched"
 }
 
 // firstClaim: before this instant the job is certainly in the table.
@@ -453,15 +500,18 @@ func normalise(sc Script) Script {
 		if c.At < 0 {
 			c.At = 0
 		}
-		if c.Kind == "dup" && c.At >= fc {
+		if (c.Kind == "dup" && c.At >= fc) || c.Kind == "resched" {
 			clash := false
 			for j, d := range sc.Calls {
 				if j != i && d.At >= c.At && d.Kind != "ctx" {
 					clash = true
 				}
 			}
-			if clash {
+			if clash && c.Kind == "dup" {
 				continue
+			}
+			if clash {
+				c.Kind = "cancel"
 			}
 		}
 		calls = append(calls, c)
@@ -522,9 +572,19 @@ func genOneOff(r *Rand) (Script, []string) {
 	sc := Script{Kind: "oneoff", Due: T, Dur: []int{0, 0, 2, 1, 3}[r.Intn(5)]}
 	off := func() int { return T + r.Range(-1, 1) }
 	var tags []string
-	switch fam := r.Intn(12); fam {
+	switch fam := r.Intn(14); fam {
 	case 0:
 		tags = append(tags, "oneoff:timer-alone")
+	case 12: // the name is released and taken again (CancelJob then ScheduleJob, as the controller does on a reorg) around T
+		sc.Calls = append(sc.Calls, Call{At: off(), Kind: "resched"})
+		if r.Chance(1, 3) {
+			sc.Calls = append(sc.Calls, Call{At: off(), Kind: "ctx"})
+		}
+		tags = append(tags, "oneoff:resched-around-T")
+	case 13: // released and taken again at the instant the parent context is cancelled
+		at := r.Range(1, T+1)
+		sc.Calls = append(sc.Calls, Call{At: at, Kind: "resched"}, Call{At: at, Kind: "ctx"})
+		tags = append(tags, "oneoff:resched+ctx-same-instant")
 	case 1: // k run requests around T
 		k := r.Range(1, 3)
 		for i := 0; i < k; i++ {
@@ -591,9 +651,16 @@ func genPeriodic(r *Rand) (Script, []string) {
 	sc := Script{Kind: "periodic", Due: P, Dur: []int{0, 1, 2, 0}[r.Intn(4)], Ticks: r.Range(1, 4)}
 	var tags []string
 	life := sc.Ticks * (P + sc.Dur)
-	switch fam := r.Intn(10); fam {
+	switch fam := r.Intn(11); fam {
 	case 0:
 		tags = append(tags, "periodic:alone")
+	case 10: // the name is released and taken again around an instance's time, the end of the job or a context cancellation
+		at := []int{P, life, r.Range(1, life+1)}[r.Intn(3)]
+		sc.Calls = append(sc.Calls, Call{At: at, Kind: "resched"})
+		if r.Chance(1, 2) {
+			sc.Calls = append(sc.Calls, Call{At: at, Kind: "ctx"})
+		}
+		tags = append(tags, "periodic:resched")
 	case 8: // a run request tied with a cancellation (of the job or of its context), around an instance's time or not
 		at := r.Range(1, P+1)
 		sc.Calls = append(sc.Calls, Call{At: at, Kind: "run"}, Call{At: at, Kind: []string{"cancel", "ctx", "cancel"}[r.Intn(3)]})
@@ -1029,11 +1096,11 @@ func TestC02(t *testing.T) {
 		observed := res.Observed
 		if res.Crashed != "" {
 			// the scheduler panicked in one of its own goroutines: reported as a panic outcome
-			calls := make([]string, len(sc.Calls))
+			calls := make([]string, len(expand(sc.Calls)))
 			for k := range calls {
 				calls[k] = "Hung"
 			}
-			observed = []Obs{{Calls: calls, Starts: []int{}, Reuse: "Ret Nil", Panic: true, Hung: true, Count: 1}}
+			observed = []Obs{{Calls: calls, Starts: []int{}, Reuse: "Ret Nil", Panic: true, Hung: true, Dup: "None", Count: 1}}
 			col.Note(fmt.Sprintf("case %d: the process died (%s)", id, res.Crashed))
 			col.Count("process-died")
 		}
